@@ -10,10 +10,18 @@ def args(quick):
     return ["--per", 4, "--chain", 2] if quick else ["--per", 12, "--chain", 3]
 
 
+def shard_args(quick, k, shards):
+    return ["--sweeps", 1 if quick else 2, "--part", k, "--parts", shards]
+
+
 def rule(quick, shards):
     per, chain = (4, 2) if quick else (12, 3)
     return (f"{shards} shards x {per} boundary-biased random register/memory states for each of the 1792 encodings "
-            f"(256 opcodes x pages none/CB/ED/DD/FD/DDCB/FDCB), each followed by {chain} more calls wherever PC leads")
+            f"(256 opcodes x pages none/CB/ED/DD/FD/DDCB/FDCB), each followed by {chain} more calls wherever PC leads; plus operand sweeps: "
+            "every A x {C,N,H} for DAA/CPL/SCF/CCF (Q = F and Q = 0)/RLCA/RRCA/RLA/RRA/NEG, every value x carry for INC/DEC and the 16 "
+            "rotate/shift/BIT forms of the CB page, " + ("28 x 28 boundary pairs" if quick else "all 65536 pairs") + " x carry for the eight ALU "
+            "operations, 28 x 28 for RLD/RRD/CPI/CPD/CPIR/CPDR and the eight block I/O instructions, 20 x 20 word pairs x carry for ADD/ADC/SBC HL "
+            "and ADD IX")
 
 
 ASSUME = ["Z80.tla is an independent transcription of the documented NMOS Z80, cross-checked by the pinned z80 test tapes",
@@ -22,7 +30,7 @@ ASSUME = ["Z80.tla is an independent transcription of the documented NMOS Z80, c
 
 
 def run(tier, seed):
-    return run_z80(PID, tier, seed, OWNED, args, rule, ASSUME, shards_q=4).finish()
+    return run_z80(PID, tier, seed, OWNED, args, rule, ASSUME, shards_q=4, shard_args=shard_args).finish()
 
 
 def replay(path, seed):
